@@ -4,7 +4,7 @@ import PrysmVerif.Lemmas.C08Families
 import PrysmVerif.Lemmas.C08Lit
 import PrysmVerif.Lemmas.C07Field
 import PrysmVerif.Lemmas.C07Hermite
-import PrysmVerif.Props.C07
+import PrysmVerif.Lemmas.C07Gen
 /-!
 # C08 — sequence evaluation equals one-at-a-time evaluation
 
@@ -48,7 +48,8 @@ theorem sweep_nil {S K : Type} (r : Rec S K) : sweep r [] = none := rfl
 section families
 variable {K : Type} [Num K]
 
-/-- `jacobi_seq`, `legendre_seq` (α=β=0), `Qcon_seq` (through `(0,4)`): row `i` is `jacobi(ns[i], α, β, x)` -/
+/-- the hand model of `jacobi_seq` (which `legendre_seq` and `Qcon_seq` call with `(0,0)` and `(0,4)`, see `wrapper_seq_params`):
+    row `i` is `jacobi(ns[i], α, β, x)` -/
 theorem jacobi_seq_eq_map (a b x : K) (ns : List Nat) (hne : ns ≠ []) (hpw : ns.Pairwise (· < ·)) :
     sweep (jacobiRec a b x) ns = some (ns.map fun n => jacobi n a b x) := by
   rw [sweep_eq_map _ ns hne hpw]; simp [jacobiRec_eval]
@@ -107,50 +108,84 @@ section generated
 open C07L
 variable {K : Type} [Field K] [DecidableEq K] [CharZero K]
 
-/-- the table arguments and look-up index of `zernike_nm_seq` are those of `zernike_nm` -/
-theorem zernike_seq_wiring (n m : ℤ) (r : K) :
-    Generated.C08.zernikeSeqX r = Generated.C07.zernikeX r
-    ∧ Generated.C08.zernikeSeqNj n m = Generated.C07.zernikeNj n m
-    ∧ (Generated.C08.zernikeSeqAB m : K × K) = Generated.C07.zernikeAB m
-    ∧ Generated.C08.zernikeSeqAzimuthNegSinPosCosTimesRPowAbsM = true
-    ∧ Generated.C07.zernikeAzimuthNegSinPosCosTimesRPowAbsM = true := by
-  refine ⟨?_, ?_, ?_, ?_, ?_⟩
-  · simp [Generated.C08.zernikeSeqX, Generated.C07.zernikeX]
-  · simp [Generated.C08.zernikeSeqNj, Generated.C07.zernikeNj]
-  · simp [Generated.C08.zernikeSeqAB, Generated.C07.zernikeAB]
-  · decide
-  · decide
+/-- **`zernike_nm_seq` computes each requested mode by the formula of `zernike_nm`**: the body of its final loop (norm applied to the
+    table entry, `sin` for `m<0` / `cos` for `m>0` of `|m| t`, `r^|m|`), with the table entry `tbl |m| ((n−|m|)//2)` equal to the
+    translated `jacobi((n−|m|)//2, 0, |m|, 2r²−1)`, is the translated body of `zernike_nm` — for every `(n, m)`, `norm`, `r`, `t` and
+    any `sin`, `cos`, `sqrt` -/
+theorem zernike_seq_mode (sinf cosf sqrt : K → K) (n : ℕ) (m : ℤ) (r t : K) (norm : Bool) (hm : m.natAbs ≤ n) :
+    Generated.C08.zernikeSeqMode sinf cosf sqrt
+        (fun k j => Generated.C07.jacobi j (Generated.C08.zernikeSeqAB (K := K) k).1 (Generated.C08.zernikeSeqAB (K := K) k).2
+          (Generated.C08.zernikeSeqX r)) (n:ℤ) m r t norm
+      = Generated.C07.zernikeNm sinf cosf sqrt (n:ℤ) m r t norm := by
+  have eabs : (if m < 0 then -m else m) = (m.natAbs : ℤ) := by split <;> omega
+  have enj : ((n:ℤ) - (m.natAbs : ℤ)) / 2 = (((n - m.natAbs) / 2 : ℕ) : ℤ) := by
+    rw [← Nat.cast_sub hm]; norm_cast
+  have hpos : ¬ m < 0 → ((m : ℤ) : K) = (m.natAbs : K) := by
+    intro h; rw [Nat.cast_natAbs, abs_of_nonneg (by omega)]
+  unfold Generated.C08.zernikeSeqMode Generated.C07.zernikeNm
+  simp only [eabs, enj, Generated.C08.zernikeSeqAB, Generated.C08.zernikeSeqX, ofInt_eq, npow_eq, Int.toNat_natCast, Int.cast_natCast,
+    Int.cast_zero, Int.cast_ofNat, Int.cast_one, C07L.gen_jacobi]
+  by_cases h0 : m = 0
+  · subst h0; cases norm <;> simp [zernike, zernikeRadial, pow_two] <;> ring
+  · by_cases h : m < 0 <;> cases norm <;> simp [h0, h, hpos, zernike, zernikeRadial, pow_two] <;> ring
 
-/-- **`xy_seq` returns the monomials**: term `(m, n)` is `x^m · y^n` for every `m, n ≥ 0` — in particular the
-    family that fills the tables has `p_0 = 1` (Dickson of the second kind with `a = 0`, not the first kind) -/
+/-- **`xy_seq` returns the monomials**: term `(m, n)` is `x^m · y^n` for every `m, n ≥ 0` — the family that fills the tables has
+    `p_0 = 1` (Dickson of the second kind with `a = 0`, not the first kind); `seqEntry2 j a c` is `dickson2(j, a, c)`, which
+    `gen_dickson2Seq` below proves to be entry `j` of `dickson2_seq(arange(0, max+1), a, c)` -/
 theorem xy_seq_term (m n : ℕ) (x y : K) : Generated.C08.xySeqTerm (m:ℤ) (n:ℤ) x y = x ^ m * y ^ n := by
   unfold Generated.C08.xySeqTerm
   first
-  | simp only [C07.gen_dickson2, ofInt_eq, Int.cast_zero, dickson2_zero_eq_pow]
-  | simp [Model.C07.xy]
+  | (simp only [seqEntry2, Int.toNat_natCast, ofInt_eq, Int.cast_zero, dickson2_zero_eq_pow]; done)
+  | (simp [Model.C07.xy, npow_eq]; done)
+  | (simp only [Int.toNat_natCast]; unfold Model.C07.xy; simp)
 
 /-- `xy_seq` term `(m,n)` equals `xy(m, n, x, y)` as translated from the source -/
 theorem xy_seq_eq_xy (m n : ℕ) (x y : K) :
     Generated.C08.xySeqTerm (m:ℤ) (n:ℤ) x y = Generated.C07.xy (m:ℤ) (n:ℤ) x y := by
   rw [xy_seq_term]; simp [Generated.C07.xy, Model.C07.xy]
 
-/-- the eight Chebyshev `*_seq` use the Jacobi parameters and numerators of their scalar functions -/
-theorem cheby_seq_params (n : ℕ) :
-    let proj := fun (p : K × K × K × K × K × K) => (p.1, p.2.1, p.2.2.1, p.2.2.2.1, p.2.2.2.2.2)
-    (Generated.C08.cheby1SeqParams (n:ℤ) : K × K × K × K × K) = proj (Generated.C07.cheby1Params (n:ℤ))
-    ∧ (Generated.C08.cheby2SeqParams (n:ℤ) : K × K × K × K × K) = proj (Generated.C07.cheby2Params (n:ℤ))
-    ∧ (Generated.C08.cheby3SeqParams (n:ℤ) : K × K × K × K × K) = proj (Generated.C07.cheby3Params (n:ℤ))
-    ∧ (Generated.C08.cheby4SeqParams (n:ℤ) : K × K × K × K × K) = proj (Generated.C07.cheby4Params (n:ℤ))
-    ∧ (Generated.C08.cheby1DerSeqParams (n:ℤ) : K × K × K × K × K) = proj (Generated.C07.cheby1Params (n:ℤ))
-    ∧ (Generated.C08.cheby2DerSeqParams (n:ℤ) : K × K × K × K × K) = proj (Generated.C07.cheby2Params (n:ℤ))
-    ∧ (Generated.C08.cheby3DerSeqParams (n:ℤ) : K × K × K × K × K) = proj (Generated.C07.cheby3Params (n:ℤ))
-    ∧ (Generated.C08.cheby4DerSeqParams (n:ℤ) : K × K × K × K × K) = proj (Generated.C07.cheby4Params (n:ℤ)) := by
+/-- mode `n` of the four Chebyshev `*_seq` — `jacobi_seq` row times `num / jacobi_seq(…, ones)` row, with the parameters and
+    numerators read from the source — is the translated body of `cheby1..4`; the `*_der_seq` use the same normalisers -/
+theorem cheby_seq_mode (n : ℕ) (x : K) :
+    (let p : K × K × K × K × K := Generated.C08.cheby1SeqParams (n:ℤ)
+     Generated.C07.jacobi (n:ℤ) p.1 p.2.1 x * (p.2.2.2.2 / Generated.C07.jacobi (n:ℤ) p.2.2.1 p.2.2.2.1 1) = Generated.C07.cheby1 (n:ℤ) x)
+    ∧ (let p : K × K × K × K × K := Generated.C08.cheby2SeqParams (n:ℤ)
+     Generated.C07.jacobi (n:ℤ) p.1 p.2.1 x * (p.2.2.2.2 / Generated.C07.jacobi (n:ℤ) p.2.2.1 p.2.2.2.1 1) = Generated.C07.cheby2 (n:ℤ) x)
+    ∧ (let p : K × K × K × K × K := Generated.C08.cheby3SeqParams (n:ℤ)
+     Generated.C07.jacobi (n:ℤ) p.1 p.2.1 x * (p.2.2.2.2 / Generated.C07.jacobi (n:ℤ) p.2.2.1 p.2.2.2.1 1) = Generated.C07.cheby3 (n:ℤ) x)
+    ∧ (let p : K × K × K × K × K := Generated.C08.cheby4SeqParams (n:ℤ)
+     Generated.C07.jacobi (n:ℤ) p.1 p.2.1 x * (p.2.2.2.2 / Generated.C07.jacobi (n:ℤ) p.2.2.1 p.2.2.2.1 1) = Generated.C07.cheby4 (n:ℤ) x)
+    ∧ (Generated.C08.cheby1DerSeqParams (n:ℤ) : K × K × K × K × K) = Generated.C08.cheby1SeqParams (n:ℤ)
+    ∧ (Generated.C08.cheby2DerSeqParams (n:ℤ) : K × K × K × K × K) = Generated.C08.cheby2SeqParams (n:ℤ)
+    ∧ (Generated.C08.cheby3DerSeqParams (n:ℤ) : K × K × K × K × K) = Generated.C08.cheby3SeqParams (n:ℤ)
+    ∧ (Generated.C08.cheby4DerSeqParams (n:ℤ) : K × K × K × K × K) = Generated.C08.cheby4SeqParams (n:ℤ) := by
   refine ⟨?_, ?_, ?_, ?_, ?_, ?_, ?_, ?_⟩ <;>
     simp [Generated.C08.cheby1SeqParams, Generated.C08.cheby2SeqParams, Generated.C08.cheby3SeqParams,
       Generated.C08.cheby4SeqParams, Generated.C08.cheby1DerSeqParams, Generated.C08.cheby2DerSeqParams,
       Generated.C08.cheby3DerSeqParams, Generated.C08.cheby4DerSeqParams,
-      Generated.C07.cheby1Params, Generated.C07.cheby2Params, Generated.C07.cheby3Params, Generated.C07.cheby4Params]
+      Generated.C07.cheby1, Generated.C07.cheby2, Generated.C07.cheby3, Generated.C07.cheby4, gen_jacobi,
+      Model.C07.cheby1, Model.C07.cheby2, Model.C07.cheby3, Model.C07.cheby4]
 
+/-- the one-line wrappers: `legendre_seq` is `jacobi_seq` with the parameters of `legendre`; `Qcon_seq` hands `2x²−1` and `(0,4)` to
+    `jacobi_seq` and multiplies each row by `x⁴`, as `Qcon` does with `jacobi` -/
+theorem wrapper_seq_params (n : ℕ) (x : K) :
+    Generated.C07.jacobi (n:ℤ) (Generated.C08.legendreSeqParams (K := K)).1 (Generated.C08.legendreSeqParams (K := K)).2 x
+      = Generated.C07.legendre (n:ℤ) x
+    ∧ Generated.C08.qconSeqOut (Generated.C07.jacobi (n:ℤ) (Generated.C08.qconSeqAB (K := K)).1 (Generated.C08.qconSeqAB (K := K)).2
+        (Generated.C08.qconSeqX x)) x = Generated.C07.qcon (n:ℤ) x := by
+  constructor <;>
+    simp [Generated.C08.legendreSeqParams, Generated.C08.qconSeqOut, Generated.C08.qconSeqAB, Generated.C08.qconSeqX,
+      Generated.C07.legendre, Generated.C07.qcon, gen_jacobi, Model.C07.legendre, Model.C07.qcon, pow_two]
+
+/-- **rows are never truncated**: whatever the kind of the coordinate dtype (bool, int, float, complex), the `out` array of every
+    value `*_seq` can hold floating-point values (read from the `dtype=` of each allocation in the source) -/
+theorem seq_rows_hold_floats (k : DKind) :
+    (Generated.C08.jacobiSeqOutKind k).holdsFloats = true ∧ (Generated.C08.hermiteHeSeqOutKind k).holdsFloats = true
+    ∧ (Generated.C08.hermiteHSeqOutKind k).holdsFloats = true ∧ (Generated.C08.laguerreSeqOutKind k).holdsFloats = true
+    ∧ (Generated.C08.dickson1SeqOutKind k).holdsFloats = true ∧ (Generated.C08.dickson2SeqOutKind k).holdsFloats = true
+    ∧ (Generated.C08.qbfsSeqOutKind k).holdsFloats = true ∧ (Generated.C08.q2dSeqOutKind k).holdsFloats = true
+    ∧ (Generated.C08.zernikeNmSeqOutKind k).holdsFloats = true := by
+  cases k <;> decide
 end generated
 
 /-! ## 3. broadcasting of the per-order constants -/
@@ -179,7 +214,7 @@ theorem cheby_seq_cs_shape (N rank : Nat) :
       Generated.C08.cheby4SeqCsShape, Generated.C08.cheby1DerSeqCsShape, Generated.C08.cheby2DerSeqCsShape,
       Generated.C08.cheby3DerSeqCsShape, Generated.C08.cheby4DerSeqCsShape, goodCsShape]
 
-/-- why `(N, 1)` is not good enough: against a 2-D coordinate array `(A, B)` NumPy raises unless `A ∈ {1, N}` -/
+/-- (history, not property content: explains repaired defect #15) why `(N, 1)` is not good enough: against a 2-D coordinate array `(A, B)` NumPy raises unless `A ∈ {1, N}` -/
 theorem pinned_shape_raises (N A B : Nat) (hN : N ≠ 1) (hA : A ≠ 1) (hAN : A ≠ N) :
     bcShape [N, A, B] [N, 1] = none := C08L.pinned_shape_raises N A B hN hA hAN
 
@@ -194,7 +229,6 @@ section translated_seq
 open C07L
 variable {K : Type} [Field K] [DecidableEq K] [CharZero K]
 
-/-- three-counter variant (`dickson*_seq` keep a second index `j` that always equals `min_i`) -/
 theorem RInv_step3 (ns : List Nat) (hpw : ns.Pairwise (· < ·)) (ev : Nat → K) (i : Nat) (out : Rows K) (k : Nat) (v : K)
     (hv : v = ev i) (h : RInv ns ev i out k) :
     RInv ns ev (i+1) (if ns[k]? = some i then (setRow out k v, k + 1, k + 1) else (out, k, k)).1
@@ -204,375 +238,366 @@ theorem RInv_step3 (ns : List Nat) (hpw : ns.Pairwise (· < ·)) (ev : Nat → K
   have := RInv_step ns hpw ev i out k v hv h
   by_cases hc : ns[k]? = some i <;> simp only [hc, if_true, if_false] at this ⊢ <;> exact ⟨this, trivial⟩
 
-/-- the statement-by-statement translation of `hermite_He_seq` (running index, conditional row writes, early returns,
-    loop) returns `ns.map` of the model's single-order value for EVERY non-empty strictly ascending `ns` -/
+/-- the statement-by-statement translation of `hermite_He_seq` (running index, conditional row writes, early returns, loop) returns
+    `ns.map` of the model's single-order value for EVERY non-empty strictly ascending `ns` -/
 theorem gen_hermiteHeSeq (ns : List Nat) (hne : ns ≠ []) (hpw : ns.Pairwise (· < ·)) (x : K) :
     Generated.C08.hermiteHeSeq ns x = some (ns.map fun n => hermiteHe n x) := by
   first
-  | (show Model.C08.sweep _ _ = _; rw [C08L.sweep_eq_map _ ns hne hpw]; simp [heRec_eval])
+  | (show Model.C08.sweep _ _ = _; rw [C08L.sweep_eq_map _ ns hne hpw]; congr 1; apply List.map_congr_left; intro n _; simpa using heRec_eval x n)
   | (
       unfold Generated.C08.hermiteHeSeq
-      simp only [ofInt_eq, Int.cast_one, Int.cast_zero]
+      simp only [ofInt_eq, ofFrac_eq, Int.cast_one, Int.cast_zero, Int.cast_ofNat, Nat.cast_ofNat]
       set ev : Nat → K := fun n => hermiteHe n x with hev
-      -- order 0
-      have h := RInv_step ns hpw ev 0 _ _ (1:K) (by simp [hev, hermiteHe_zero]) (RInv_zero ns ev)
-      generalize hst : (ite (ns[0]? = some 0) _ _ : Rows K × Nat) = st at h ⊢
+      have P2 : x * x - 1 = ev 2 := by simp [hev, hermiteHe_succ_succ, hermiteHe_one, hermiteHe_zero]
+      have h := RInv_zero ns ev
+      generalize hst : (ite (ns[0]? = some 0) _ _ : Rows K × Nat) = st
+      have h : RInv ns ev (0+1) st.1 st.2 := by rw [← hst]; exact RInv_step ns hpw ev 0 _ _ _ (by simp [hev, hermiteHe_zero]) h
+      obtain ⟨out0, k0⟩ := st
+      simp only [] at h ⊢
+      split
+      · exact RInv_done ns ev (0+1) out0 k0 h ‹_›
+      generalize hst : (ite (ns[k0]? = some 1) _ _ : Rows K × Nat) = st
+      have h : RInv ns ev (1+1) st.1 st.2 := by rw [← hst]; exact RInv_step ns hpw ev 1 _ _ _ (by simp [hev, hermiteHe_one]) h
       obtain ⟨out1, k1⟩ := st
       simp only [] at h ⊢
       split
-      · exact RInv_done ns ev 1 out1 k1 h ‹_›
-      -- order 1
-      have h := RInv_step ns hpw ev 1 _ _ x (by simp [hev, hermiteHe_one]) h
-      generalize hst : (ite (ns[k1]? = some 1) _ _ : Rows K × Nat) = st at h ⊢
+      · exact RInv_done ns ev (1+1) out1 k1 h ‹_›
+      generalize hst : (ite (ns[k1]? = some 2) _ _ : Rows K × Nat) = st
+      have h : RInv ns ev (2+1) st.1 st.2 := by rw [← hst]; exact RInv_step ns hpw ev 2 _ _ _ (by exact P2) h
       obtain ⟨out2, k2⟩ := st
       simp only [] at h ⊢
       split
-      · exact RInv_done ns ev 2 out2 k2 h ‹_›
-      -- order 2
-      have P2 : x * x - 1 = ev 2 := by simp [hev, hermiteHe_succ_succ, hermiteHe_one, hermiteHe_zero]
-      have h := RInv_step ns hpw ev 2 _ _ (x * x - 1) P2 h
-      generalize hst : (ite (ns[k2]? = some 2) _ _ : Rows K × Nat) = st at h ⊢
-      obtain ⟨out3, k3⟩ := st
-      simp only [] at h ⊢
-      split
-      · exact RInv_done ns ev 3 out3 k3 h ‹_›
-      -- the loop
+      · exact RInv_done ns ev (2+1) out2 k2 h ‹_›
       refine RInv_finish ns ev (3 + ((lastOrder ns + 1) - 3).toNat) _ _ (forRange_induct'
-        (fun m (s : K × K × K × Nat × Rows K) => RInv ns ev (3 + m) s.2.2.2.2 s.2.2.2.1 ∧ s.2.1 = ev (m+1) ∧ s.2.2.1 = ev (m+2))
+        (fun m s => RInv ns ev (3 + m) (Generated.C08.hermiteHeSeq_st_out s) (Generated.C08.hermiteHeSeq_st_min_i s) ∧ Generated.C08.hermiteHeSeq_st_Pnm2 s = ev (m+1) ∧ Generated.C08.hermiteHeSeq_st_Pnm1 s = ev (m+2))
         3 (lastOrder ns + 1) _ _ ?_ ?_).1 ?_
-      · exact ⟨h, by simp [hev, hermiteHe_one], P2⟩
+      · exact ⟨h, by simp [hev, hermiteHe_one], by exact P2⟩
       · rintro m s ⟨hs, h1, h2⟩
-        have e : x * s.2.2.1 - (((3 + (m:ℤ) : ℤ) : K) - 1) * s.2.1 = ev (m+3) := by
-          rw [h1, h2]; simp only [hev]; rw [hermiteHe_succ_succ (m+1)]; push_cast; ring
+        dsimp only [Generated.C08.hermiteHeSeq_st_out, Generated.C08.hermiteHeSeq_st_min_i, Generated.C08.hermiteHeSeq_st_Pnm2, Generated.C08.hermiteHeSeq_st_Pnm1] at hs h1 h2 ⊢
         have hi : (3 + (m:ℤ)).toNat = 3 + m := by omega
-        have e' : x * s.2.2.1 - (((3 + (m:ℤ) : ℤ) : K) - 1) * s.2.1 = ev (3+m) := by rw [e]; congr 1; omega
-        have hs' := RInv_step ns hpw ev (3+m) _ _ _ e' hs
         simp only [hi]
-        exact ⟨hs', h2, e⟩
+        refine ⟨RInv_step ns hpw ev (3+m) _ _ _ (by rw [h1, h2]; simp only [hev]; rw [show 3 + m = (m+1) + 2 by omega, hermiteHe_succ_succ (m+1)]; push_cast; ring) hs, ?_, ?_⟩
+        · exact h2
+        · rw [h1, h2]; simp only [hev]; rw [hermiteHe_succ_succ (m+1)]; push_cast; ring
       · intro a ha
         have := le_lastOrder ns hpw a ha
         omega)
 
-/-- the statement-by-statement translation of `hermite_H_seq` (running index, conditional row writes, early returns,
-    loop) returns `ns.map` of the model's single-order value for EVERY non-empty strictly ascending `ns` -/
+/-- the statement-by-statement translation of `hermite_H_seq` (running index, conditional row writes, early returns, loop) returns
+    `ns.map` of the model's single-order value for EVERY non-empty strictly ascending `ns` -/
 theorem gen_hermiteHSeq (ns : List Nat) (hne : ns ≠ []) (hpw : ns.Pairwise (· < ·)) (x : K) :
     Generated.C08.hermiteHSeq ns x = some (ns.map fun n => hermiteH n x) := by
   first
-  | (show Model.C08.sweep _ _ = _; rw [C08L.sweep_eq_map _ ns hne hpw]; simp [hRec_eval])
+  | (show Model.C08.sweep _ _ = _; rw [C08L.sweep_eq_map _ ns hne hpw]; congr 1; apply List.map_congr_left; intro n _; simpa using hRec_eval x n)
   | (
       unfold Generated.C08.hermiteHSeq
-      simp only [ofInt_eq, Int.cast_one, Int.cast_zero, Int.cast_ofNat]
+      simp only [ofInt_eq, ofFrac_eq, Int.cast_one, Int.cast_zero, Int.cast_ofNat, Nat.cast_ofNat]
       set ev : Nat → K := fun n => hermiteH n x with hev
-      have h := RInv_step ns hpw ev 0 _ _ (1:K) (by simp [hev, hermiteH_zero]) (RInv_zero ns ev)
-      generalize hst : (ite (ns[0]? = some 0) _ _ : Rows K × Nat) = st at h ⊢
+      have P2 : 4 * (x * x) - 2 = ev 2 := by simp [hev, hermiteH_succ_succ, hermiteH_one, hermiteH_zero]; ring
+      have h := RInv_zero ns ev
+      generalize hst : (ite (ns[0]? = some 0) _ _ : Rows K × Nat) = st
+      have h : RInv ns ev (0+1) st.1 st.2 := by rw [← hst]; exact RInv_step ns hpw ev 0 _ _ _ (by simp [hev, hermiteH_zero]) h
+      obtain ⟨out0, k0⟩ := st
+      simp only [] at h ⊢
+      split
+      · exact RInv_done ns ev (0+1) out0 k0 h ‹_›
+      generalize hst : (ite (ns[k0]? = some 1) _ _ : Rows K × Nat) = st
+      have h : RInv ns ev (1+1) st.1 st.2 := by rw [← hst]; exact RInv_step ns hpw ev 1 _ _ _ (by simp [hev, hermiteH_one]) h
       obtain ⟨out1, k1⟩ := st
       simp only [] at h ⊢
       split
-      · exact RInv_done ns ev 1 out1 k1 h ‹_›
-      have h := RInv_step ns hpw ev 1 _ _ (2 * x) (by simp [hev, hermiteH_one]) h
-      generalize hst : (ite (ns[k1]? = some 1) _ _ : Rows K × Nat) = st at h ⊢
+      · exact RInv_done ns ev (1+1) out1 k1 h ‹_›
+      generalize hst : (ite (ns[k1]? = some 2) _ _ : Rows K × Nat) = st
+      have h : RInv ns ev (2+1) st.1 st.2 := by rw [← hst]; exact RInv_step ns hpw ev 2 _ _ _ (by exact P2) h
       obtain ⟨out2, k2⟩ := st
       simp only [] at h ⊢
       split
-      · exact RInv_done ns ev 2 out2 k2 h ‹_›
-      have P2 : 4 * (x * x) - 2 = ev 2 := by
-        simp [hev, hermiteH_succ_succ, hermiteH_one, hermiteH_zero]; ring
-      have h := RInv_step ns hpw ev 2 _ _ (4 * (x * x) - 2) P2 h
-      generalize hst : (ite (ns[k2]? = some 2) _ _ : Rows K × Nat) = st at h ⊢
-      obtain ⟨out3, k3⟩ := st
-      simp only [] at h ⊢
-      split
-      · exact RInv_done ns ev 3 out3 k3 h ‹_›
+      · exact RInv_done ns ev (2+1) out2 k2 h ‹_›
       refine RInv_finish ns ev (3 + ((lastOrder ns + 1) - 3).toNat) _ _ (forRange_induct'
-        (fun m (s : K × K × K × Nat × Rows K) => RInv ns ev (3 + m) s.2.2.2.2 s.2.2.2.1 ∧ s.2.1 = ev (m+1) ∧ s.2.2.1 = ev (m+2))
+        (fun m s => RInv ns ev (3 + m) (Generated.C08.hermiteHSeq_st_out s) (Generated.C08.hermiteHSeq_st_min_i s) ∧ Generated.C08.hermiteHSeq_st_Pnm2 s = ev (m+1) ∧ Generated.C08.hermiteHSeq_st_Pnm1 s = ev (m+2))
         3 (lastOrder ns + 1) _ _ ?_ ?_).1 ?_
-      · exact ⟨h, by simp [hev, hermiteH_one], P2⟩
+      · exact ⟨h, by simp [hev, hermiteH_one], by exact P2⟩
       · rintro m s ⟨hs, h1, h2⟩
-        have e : 2 * x * s.2.2.1 - (2 * (((3 + (m:ℤ) : ℤ) : K) - 1)) * s.2.1 = ev (3+m) := by
-          rw [h1, h2, show 3 + m = (m+1) + 2 by omega]; simp only [hev]; rw [hermiteH_succ_succ (m+1)]; push_cast; ring
+        dsimp only [Generated.C08.hermiteHSeq_st_out, Generated.C08.hermiteHSeq_st_min_i, Generated.C08.hermiteHSeq_st_Pnm2, Generated.C08.hermiteHSeq_st_Pnm1] at hs h1 h2 ⊢
         have hi : (3 + (m:ℤ)).toNat = 3 + m := by omega
-        have hs' := RInv_step ns hpw ev (3+m) _ _ _ e hs
         simp only [hi]
-        exact ⟨hs', h2, by rw [e]; congr 1; omega⟩
+        refine ⟨RInv_step ns hpw ev (3+m) _ _ _ (by rw [h1, h2]; simp only [hev]; rw [show 3 + m = (m+1) + 2 by omega, hermiteH_succ_succ (m+1)]; push_cast; ring) hs, ?_, ?_⟩
+        · exact h2
+        · rw [h1, h2]; simp only [hev]; rw [hermiteH_succ_succ (m+1)]; push_cast; ring
       · intro a ha
         have := le_lastOrder ns hpw a ha
         omega)
 
-/-- the statement-by-statement translation of `hermite_He_der_seq` (running index, conditional row writes, early returns,
-    loop) returns `ns.map` of the model's single-order value for EVERY non-empty strictly ascending `ns` -/
+/-- the statement-by-statement translation of `hermite_He_der_seq` (running index, conditional row writes, early returns, loop) returns
+    `ns.map` of the model's single-order value for EVERY non-empty strictly ascending `ns` -/
 theorem gen_hermiteHeDerSeq (ns : List Nat) (hne : ns ≠ []) (hpw : ns.Pairwise (· < ·)) (x : K) :
     Generated.C08.hermiteHeDerSeq ns x = some (ns.map fun n => hermiteHeDer n x) := by
   first
-  | (show Model.C08.sweep _ _ = _; rw [C08L.sweep_eq_map _ ns hne hpw]; simp [heDerRec_eval])
+  | (show Model.C08.sweep _ _ = _; rw [C08L.sweep_eq_map _ ns hne hpw]; congr 1; apply List.map_congr_left; intro n _; simpa using heDerRec_eval x n)
   | (
       unfold Generated.C08.hermiteHeDerSeq
-      simp only [ofInt_eq, Int.cast_one, Int.cast_zero, Int.cast_ofNat]
+      simp only [ofInt_eq, ofFrac_eq, Int.cast_one, Int.cast_zero, Int.cast_ofNat, Nat.cast_ofNat]
       set ev : Nat → K := fun n => hermiteHeDer n x with hev
       have ev_succ : ∀ k, ev (k+1) = ((k:K) + 1) * hermiteHe k x := by intro k; simp [hev, hermiteHeDer]
-      have h := RInv_step ns hpw ev 0 _ _ (0:K) (by simp [hev, hermiteHeDer]) (RInv_zero ns ev)
-      generalize hst : (ite (ns[0]? = some 0) _ _ : Rows K × Nat) = st at h ⊢
+      have P2 : x * x - 1 = hermiteHe 2 x := by simp [hermiteHe_succ_succ, hermiteHe_one, hermiteHe_zero]
+      have h := RInv_zero ns ev
+      generalize hst : (ite (ns[0]? = some 0) _ _ : Rows K × Nat) = st
+      have h : RInv ns ev (0+1) st.1 st.2 := by rw [← hst]; exact RInv_step ns hpw ev 0 _ _ _ (by simp [hev, hermiteHeDer]) h
+      obtain ⟨out0, k0⟩ := st
+      simp only [] at h ⊢
+      split
+      · exact RInv_done ns ev (0+1) out0 k0 h ‹_›
+      generalize hst : (ite (ns[k0]? = some 1) _ _ : Rows K × Nat) = st
+      have h : RInv ns ev (1+1) st.1 st.2 := by rw [← hst]; exact RInv_step ns hpw ev 1 _ _ _ (by rw [ev_succ]; simp [hermiteHe_zero]) h
       obtain ⟨out1, k1⟩ := st
       simp only [] at h ⊢
       split
-      · exact RInv_done ns ev 1 out1 k1 h ‹_›
-      have h := RInv_step ns hpw ev 1 _ _ (1:K) (by rw [ev_succ]; simp [hermiteHe_zero]) h
-      generalize hst : (ite (ns[k1]? = some 1) _ _ : Rows K × Nat) = st at h ⊢
+      · exact RInv_done ns ev (1+1) out1 k1 h ‹_›
+      generalize hst : (ite (ns[k1]? = some 2) _ _ : Rows K × Nat) = st
+      have h : RInv ns ev (2+1) st.1 st.2 := by rw [← hst]; exact RInv_step ns hpw ev 2 _ _ _ (by rw [ev_succ, hermiteHe_one]; push_cast; ring) h
       obtain ⟨out2, k2⟩ := st
       simp only [] at h ⊢
       split
-      · exact RInv_done ns ev 2 out2 k2 h ‹_›
-      have h := RInv_step ns hpw ev 2 _ _ (2 * x) (by rw [ev_succ, hermiteHe_one]; push_cast; ring) h
-      generalize hst : (ite (ns[k2]? = some 2) _ _ : Rows K × Nat) = st at h ⊢
-      obtain ⟨out3, k3⟩ := st
-      simp only [] at h ⊢
-      split
-      · exact RInv_done ns ev 3 out3 k3 h ‹_›
-      have P2 : x * x - 1 = hermiteHe 2 x := by simp [hermiteHe_succ_succ, hermiteHe_one, hermiteHe_zero]
+      · exact RInv_done ns ev (2+1) out2 k2 h ‹_›
       refine RInv_finish ns ev (3 + ((lastOrder ns + 1) - 3).toNat) _ _ (forRange_induct'
-        (fun m (s : K × Nat × K × K × Rows K) => RInv ns ev (3 + m) s.2.2.2.2 s.2.1 ∧ s.2.2.1 = hermiteHe (m+1) x
-          ∧ s.2.2.2.1 = hermiteHe (m+2) x)
+        (fun m s => RInv ns ev (3 + m) (Generated.C08.hermiteHeDerSeq_st_out s) (Generated.C08.hermiteHeDerSeq_st_min_i s) ∧ Generated.C08.hermiteHeDerSeq_st_Pnm2 s = hermiteHe (m+1) x ∧ Generated.C08.hermiteHeDerSeq_st_Pnm1 s = hermiteHe (m+2) x)
         3 (lastOrder ns + 1) _ _ ?_ ?_).1 ?_
-      · exact ⟨h, by simp [hermiteHe_one], P2⟩
+      · exact ⟨h, by simp [hermiteHe_one], by exact P2⟩
       · rintro m s ⟨hs, h1, h2⟩
-        have e : x * s.2.2.2.1 - (((3 + (m:ℤ) : ℤ) : K) - 1) * s.2.2.1 = hermiteHe (m+3) x := by
-          rw [h1, h2, hermiteHe_succ_succ (m+1)]; push_cast; ring
-        have ee : ((3 + (m:ℤ) : ℤ) : K) * s.2.2.2.1 = ev (3+m) := by
-          rw [show 3 + m = (m+2) + 1 by omega, ev_succ, h2]; push_cast; ring
+        dsimp only [Generated.C08.hermiteHeDerSeq_st_out, Generated.C08.hermiteHeDerSeq_st_min_i, Generated.C08.hermiteHeDerSeq_st_Pnm2, Generated.C08.hermiteHeDerSeq_st_Pnm1] at hs h1 h2 ⊢
         have hi : (3 + (m:ℤ)).toNat = 3 + m := by omega
-        have hs' := RInv_step ns hpw ev (3+m) _ _ _ ee hs
         simp only [hi]
-        exact ⟨hs', h2, e⟩
+        refine ⟨RInv_step ns hpw ev (3+m) _ _ _ (by rw [show 3 + m = (m+2) + 1 by omega, ev_succ, h2]; push_cast; ring) hs, ?_, ?_⟩
+        · exact h2
+        · rw [h1, h2, hermiteHe_succ_succ (m+1)]; push_cast; ring
       · intro a ha
         have := le_lastOrder ns hpw a ha
         omega)
 
-/-- the statement-by-statement translation of `hermite_H_der_seq` (running index, conditional row writes, early returns,
-    loop) returns `ns.map` of the model's single-order value for EVERY non-empty strictly ascending `ns` -/
+/-- the statement-by-statement translation of `hermite_H_der_seq` (running index, conditional row writes, early returns, loop) returns
+    `ns.map` of the model's single-order value for EVERY non-empty strictly ascending `ns` -/
 theorem gen_hermiteHDerSeq (ns : List Nat) (hne : ns ≠ []) (hpw : ns.Pairwise (· < ·)) (x : K) :
     Generated.C08.hermiteHDerSeq ns x = some (ns.map fun n => hermiteHDer n x) := by
   first
-  | (show Model.C08.sweep _ _ = _; rw [C08L.sweep_eq_map _ ns hne hpw]; simp [hDerRec_eval])
+  | (show Model.C08.sweep _ _ = _; rw [C08L.sweep_eq_map _ ns hne hpw]; congr 1; apply List.map_congr_left; intro n _; simpa using hDerRec_eval x n)
   | (
       unfold Generated.C08.hermiteHDerSeq
-      simp only [ofInt_eq, Int.cast_one, Int.cast_zero, Int.cast_ofNat]
+      simp only [ofInt_eq, ofFrac_eq, Int.cast_one, Int.cast_zero, Int.cast_ofNat, Nat.cast_ofNat]
       set ev : Nat → K := fun n => hermiteHDer n x with hev
       have ev_succ : ∀ k, ev (k+1) = 2 * ((k:K) + 1) * hermiteH k x := by intro k; simp [hev, hermiteHDer]
-      have h := RInv_step ns hpw ev 0 _ _ (0:K) (by simp [hev, hermiteHDer]) (RInv_zero ns ev)
-      generalize hst : (ite (ns[0]? = some 0) _ _ : Rows K × Nat) = st at h ⊢
+      have P2 : 4 * (x * x) - 2 = hermiteH 2 x := by simp [hermiteH_succ_succ, hermiteH_one, hermiteH_zero]; ring
+      have h := RInv_zero ns ev
+      generalize hst : (ite (ns[0]? = some 0) _ _ : Rows K × Nat) = st
+      have h : RInv ns ev (0+1) st.1 st.2 := by rw [← hst]; exact RInv_step ns hpw ev 0 _ _ _ (by simp [hev, hermiteHDer]) h
+      obtain ⟨out0, k0⟩ := st
+      simp only [] at h ⊢
+      split
+      · exact RInv_done ns ev (0+1) out0 k0 h ‹_›
+      generalize hst : (ite (ns[k0]? = some 1) _ _ : Rows K × Nat) = st
+      have h : RInv ns ev (1+1) st.1 st.2 := by rw [← hst]; exact RInv_step ns hpw ev 1 _ _ _ (by rw [ev_succ]; simp [hermiteH_zero]) h
       obtain ⟨out1, k1⟩ := st
       simp only [] at h ⊢
       split
-      · exact RInv_done ns ev 1 out1 k1 h ‹_›
-      have h := RInv_step ns hpw ev 1 _ _ (2:K) (by rw [ev_succ]; simp [hermiteH_zero]) h
-      generalize hst : (ite (ns[k1]? = some 1) _ _ : Rows K × Nat) = st at h ⊢
+      · exact RInv_done ns ev (1+1) out1 k1 h ‹_›
+      generalize hst : (ite (ns[k1]? = some 2) _ _ : Rows K × Nat) = st
+      have h : RInv ns ev (2+1) st.1 st.2 := by rw [← hst]; exact RInv_step ns hpw ev 2 _ _ _ (by rw [ev_succ, hermiteH_one]; push_cast; ring) h
       obtain ⟨out2, k2⟩ := st
       simp only [] at h ⊢
       split
-      · exact RInv_done ns ev 2 out2 k2 h ‹_›
-      have h := RInv_step ns hpw ev 2 _ _ (4 * (2 * x)) (by rw [ev_succ, hermiteH_one]; push_cast; ring) h
-      generalize hst : (ite (ns[k2]? = some 2) _ _ : Rows K × Nat) = st at h ⊢
-      obtain ⟨out3, k3⟩ := st
-      simp only [] at h ⊢
-      split
-      · exact RInv_done ns ev 3 out3 k3 h ‹_›
-      have P2 : 4 * (x * x) - 2 = hermiteH 2 x := by
-        simp [hermiteH_succ_succ, hermiteH_one, hermiteH_zero]; ring
+      · exact RInv_done ns ev (2+1) out2 k2 h ‹_›
       refine RInv_finish ns ev (3 + ((lastOrder ns + 1) - 3).toNat) _ _ (forRange_induct'
-        (fun m (s : K × Nat × K × K × Rows K) => RInv ns ev (3 + m) s.2.2.2.2 s.2.1 ∧ s.2.2.1 = hermiteH (m+1) x
-          ∧ s.2.2.2.1 = hermiteH (m+2) x)
+        (fun m s => RInv ns ev (3 + m) (Generated.C08.hermiteHDerSeq_st_out s) (Generated.C08.hermiteHDerSeq_st_min_i s) ∧ Generated.C08.hermiteHDerSeq_st_Pnm2 s = hermiteH (m+1) x ∧ Generated.C08.hermiteHDerSeq_st_Pnm1 s = hermiteH (m+2) x)
         3 (lastOrder ns + 1) _ _ ?_ ?_).1 ?_
-      · exact ⟨h, by simp [hermiteH_one], P2⟩
+      · exact ⟨h, by simp [hermiteH_one], by exact P2⟩
       · rintro m s ⟨hs, h1, h2⟩
-        have e : 2 * x * s.2.2.2.1 - (2 * (((3 + (m:ℤ) : ℤ) : K) - 1)) * s.2.2.1 = hermiteH (m+3) x := by
-          rw [h1, h2, hermiteH_succ_succ (m+1)]; push_cast; ring
-        have ee : 2 * ((3 + (m:ℤ) : ℤ) : K) * s.2.2.2.1 = ev (3+m) := by
-          rw [show 3 + m = (m+2) + 1 by omega, ev_succ, h2]; push_cast; ring
+        dsimp only [Generated.C08.hermiteHDerSeq_st_out, Generated.C08.hermiteHDerSeq_st_min_i, Generated.C08.hermiteHDerSeq_st_Pnm2, Generated.C08.hermiteHDerSeq_st_Pnm1] at hs h1 h2 ⊢
         have hi : (3 + (m:ℤ)).toNat = 3 + m := by omega
-        have hs' := RInv_step ns hpw ev (3+m) _ _ _ ee hs
         simp only [hi]
-        exact ⟨hs', h2, e⟩
+        refine ⟨RInv_step ns hpw ev (3+m) _ _ _ (by rw [show 3 + m = (m+2) + 1 by omega, ev_succ, h2]; push_cast; ring) hs, ?_, ?_⟩
+        · exact h2
+        · rw [h1, h2, hermiteH_succ_succ (m+1)]; push_cast; ring
       · intro a ha
         have := le_lastOrder ns hpw a ha
         omega)
 
-/-- the statement-by-statement translation of `laguerre_seq` (running index, conditional row writes, early returns,
-    loop) returns `ns.map` of the model's single-order value for EVERY non-empty strictly ascending `ns` -/
+/-- the statement-by-statement translation of `laguerre_seq` (running index, conditional row writes, early returns, loop) returns
+    `ns.map` of the model's single-order value for EVERY non-empty strictly ascending `ns` -/
 theorem gen_laguerreSeq (ns : List Nat) (hne : ns ≠ []) (hpw : ns.Pairwise (· < ·)) (al x : K) :
     Generated.C08.laguerreSeq ns al x = some (ns.map fun n => laguerre n al x) := by
   first
-  | (show Model.C08.sweep _ _ = _; rw [C08L.sweep_eq_map _ ns hne hpw]; simp [lagRec_eval])
+  | (show Model.C08.sweep _ _ = _; rw [C08L.sweep_eq_map _ ns hne hpw]; congr 1; apply List.map_congr_left; intro n _; simpa using lagRec_eval al x n)
   | (
       unfold Generated.C08.laguerreSeq
       simp only [ofInt_eq, ofFrac_eq, Int.cast_one, Int.cast_zero, Int.cast_ofNat, Nat.cast_ofNat]
       set ev : Nat → K := fun n => laguerre n al x with hev
-      have h := RInv_step ns hpw ev 0 _ _ (1:K) (by simp [hev, laguerre_zero]) (RInv_zero ns ev)
-      generalize hst : (ite (ns[0]? = some 0) _ _ : Rows K × Nat) = st at h ⊢
+      have P2 : (1:K) / 2 * ((al + 3 - x) * (al + 1 - x) - (al + 1) * 1) = ev 2 := by
+        simp only [hev]; rw [laguerre_succ_succ, laguerre_one, laguerre_zero]; simp; ring
+      have h := RInv_zero ns ev
+      generalize hst : (ite (ns[0]? = some 0) _ _ : Rows K × Nat) = st
+      have h : RInv ns ev (0+1) st.1 st.2 := by rw [← hst]; exact RInv_step ns hpw ev 0 _ _ _ (by simp [hev, laguerre_zero]) h
+      obtain ⟨out0, k0⟩ := st
+      simp only [] at h ⊢
+      split
+      · exact RInv_done ns ev (0+1) out0 k0 h ‹_›
+      generalize hst : (ite (ns[k0]? = some 1) _ _ : Rows K × Nat) = st
+      have h : RInv ns ev (1+1) st.1 st.2 := by rw [← hst]; exact RInv_step ns hpw ev 1 _ _ _ (by simp [hev, laguerre_one]) h
       obtain ⟨out1, k1⟩ := st
       simp only [] at h ⊢
       split
-      · exact RInv_done ns ev 1 out1 k1 h ‹_›
-      have h := RInv_step ns hpw ev 1 _ _ (al + 1 - x) (by simp [hev, laguerre_one]) h
-      generalize hst : (ite (ns[k1]? = some 1) _ _ : Rows K × Nat) = st at h ⊢
+      · exact RInv_done ns ev (1+1) out1 k1 h ‹_›
+      generalize hst : (ite (ns[k1]? = some 2) _ _ : Rows K × Nat) = st
+      have h : RInv ns ev (2+1) st.1 st.2 := by rw [← hst]; exact RInv_step ns hpw ev 2 _ _ _ (by exact P2) h
       obtain ⟨out2, k2⟩ := st
       simp only [] at h ⊢
       split
-      · exact RInv_done ns ev 2 out2 k2 h ‹_›
-      have P2 : (1:K) / 2 * ((al + 3 - x) * (al + 1 - x) - (al + 1) * 1) = ev 2 := by
-        simp only [hev]; rw [laguerre_succ_succ, laguerre_one, laguerre_zero]; simp; ring
-      have h := RInv_step ns hpw ev 2 _ _ _ P2 h
-      generalize hst : (ite (ns[k2]? = some 2) _ _ : Rows K × Nat) = st at h ⊢
-      obtain ⟨out3, k3⟩ := st
-      simp only [] at h ⊢
-      split
-      · exact RInv_done ns ev 3 out3 k3 h ‹_›
+      · exact RInv_done ns ev (2+1) out2 k2 h ‹_›
       refine RInv_finish ns ev (3 + ((lastOrder ns + 1) - 3).toNat) _ _ (forRange_induct'
-        (fun m (s : K × K × K × K × K × K × Nat × Rows K) => RInv ns ev (3 + m) s.2.2.2.2.2.2.2 s.2.2.2.2.2.2.1
-          ∧ s.2.2.2.2.1 = ev (m+2) ∧ s.2.2.2.2.2.1 = ev (m+1))
+        (fun m s => RInv ns ev (3 + m) (Generated.C08.laguerreSeq_st_out s) (Generated.C08.laguerreSeq_st_min_i s) ∧ Generated.C08.laguerreSeq_st_Ln s = ev (m+2) ∧ Generated.C08.laguerreSeq_st_Lnm1 s = ev (m+1))
         3 (lastOrder ns + 1) _ _ ?_ ?_).1 ?_
-      · exact ⟨h, P2, by simp [hev, laguerre_one]⟩
+      · exact ⟨h, by exact P2, by simp [hev, laguerre_one]⟩
       · rintro m s ⟨hs, h1, h2⟩
-        have e : 1 / ((((3 + (m:ℤ) : ℤ) : K) - 1) + 1) * ((al + 2 * (((3 + (m:ℤ) : ℤ) : K) - 1) + 1 - x) * s.2.2.2.2.1
-            - (al + (((3 + (m:ℤ) : ℤ) : K) - 1)) * s.2.2.2.2.2.1) = ev (3+m) := by
-          rw [h1, h2, show 3 + m = (m+1) + 2 by omega]; simp only [hev]; rw [laguerre_succ_succ (m+1)]; push_cast; ring
+        dsimp only [Generated.C08.laguerreSeq_st_out, Generated.C08.laguerreSeq_st_min_i, Generated.C08.laguerreSeq_st_Ln, Generated.C08.laguerreSeq_st_Lnm1] at hs h1 h2 ⊢
         have hi : (3 + (m:ℤ)).toNat = 3 + m := by omega
-        have hs' := RInv_step ns hpw ev (3+m) _ _ _ e hs
         simp only [hi]
-        exact ⟨hs', by rw [e]; congr 1; omega, h1⟩
+        refine ⟨RInv_step ns hpw ev (3+m) _ _ _ (by rw [h1, h2]; simp only [hev]; rw [show 3 + m = (m+1) + 2 by omega, laguerre_succ_succ (m+1)]; push_cast; ring) hs, ?_, ?_⟩
+        · rw [h1, h2]; simp only [hev]; rw [laguerre_succ_succ (m+1)]; push_cast; ring
+        · exact h1
       · intro a ha
         have := le_lastOrder ns hpw a ha
         omega)
 
-/-- the shared body of `dickson1_seq` / `dickson2_seq` (they differ only in `P_0`), as translated, returns `ns.map D_n` -/
-theorem gen_dicksonSeq_aux (p0 : K) (ns : List Nat) (hpw : ns.Pairwise (· < ·)) (al x : K)
-    (F : List Nat → K → K → Option (List K))
-    (hF : F ns al x = (
-      let min_i_ : Nat := 0
-      let j_ : Nat := 0
-      let out_ : Rows K := emptyRows ns.length
-      let st : Rows K × Nat × Nat := if ns[min_i_]? = some 0 then (setRow out_ j_ p0, min_i_ + 1, j_ + 1) else (out_, min_i_, j_)
-      if st.2.1 = ns.length then finishRows st.1 else
-      let st2 : Rows K × Nat × Nat := if ns[st.2.1]? = some 1 then (setRow st.1 st.2.2 x, st.2.1 + 1, st.2.2 + 1) else (st.1, st.2.1, st.2.2)
-      if st2.2.1 = ns.length then finishRows st2.1 else
-      finishRows (Model.C07.forRange (2 : Int) (lastOrder ns + 1) (fun (i : Int) (s : K × K × K × Nat × Nat × Rows K) =>
-        ((x * s.2.1) - (al * s.2.2.1), (x * s.2.1) - (al * s.2.2.1), s.2.1,
-          (if ns[s.2.2.2.1]? = some (Int.toNat i) then (setRow s.2.2.2.2.2 s.2.2.2.2.1 ((x * s.2.1) - (al * s.2.2.1)), s.2.2.2.1 + 1, s.2.2.2.2.1 + 1)
-            else (s.2.2.2.2.2, s.2.2.2.1, s.2.2.2.2.1)).2.1,
-          (if ns[s.2.2.2.1]? = some (Int.toNat i) then (setRow s.2.2.2.2.2 s.2.2.2.2.1 ((x * s.2.1) - (al * s.2.2.1)), s.2.2.2.1 + 1, s.2.2.2.2.1 + 1)
-            else (s.2.2.2.2.2, s.2.2.2.1, s.2.2.2.2.1)).2.2,
-          (if ns[s.2.2.2.1]? = some (Int.toNat i) then (setRow s.2.2.2.2.2 s.2.2.2.2.1 ((x * s.2.1) - (al * s.2.2.1)), s.2.2.2.1 + 1, s.2.2.2.2.1 + 1)
-            else (s.2.2.2.2.2, s.2.2.2.1, s.2.2.2.2.1)).1))
-        ((0:K), x, p0, st2.2.1, st2.2.2, st2.1)).2.2.2.2.2)) :
-    F ns al x = some (ns.map fun n => (dickPair p0 al x n).1) := by
-  rw [hF]
-  simp only []
-  set ev : Nat → K := fun n => (dickPair p0 al x n).1 with hev
-  have h := RInv_step3 ns hpw ev 0 _ _ p0 (by simp [hev, dickPair]) (RInv_zero ns ev)
-  generalize hst : (ite (ns[0]? = some 0) _ _ : Rows K × Nat × Nat) = st at h ⊢
-  obtain ⟨out1, k1, j1⟩ := st
-  simp only [] at h ⊢
-  obtain ⟨h, rfl⟩ := h
-  split
-  · exact RInv_done ns ev 1 out1 j1 h ‹_›
-  have h := RInv_step3 ns hpw ev 1 _ _ x (by simp [hev, dickPair]) h
-  generalize hst : (ite (ns[j1]? = some 1) _ _ : Rows K × Nat × Nat) = st at h ⊢
-  obtain ⟨out2, k2, j2⟩ := st
-  simp only [] at h ⊢
-  obtain ⟨h, rfl⟩ := h
-  split
-  · exact RInv_done ns ev 2 out2 j2 h ‹_›
-  refine RInv_finish ns ev (2 + ((lastOrder ns + 1) - 2).toNat) _ _ (forRange_induct'
-    (fun m (s : K × K × K × Nat × Nat × Rows K) => RInv ns ev (2 + m) s.2.2.2.2.2 s.2.2.2.1 ∧ s.2.2.2.2.1 = s.2.2.2.1
-      ∧ s.2.1 = ev (m+1) ∧ s.2.2.1 = ev m)
-    2 (lastOrder ns + 1) _ _ ?_ ?_).1 ?_
-  · exact ⟨h, rfl, by simp [hev, dickPair], by simp [hev, dickPair]⟩
-  · rintro m ⟨a, b, c, k, j, o⟩ ⟨hs, hj, h1, h2⟩
-    simp only [] at hs hj h1 h2 ⊢
-    subst hj
-    have e : x * b - al * c = ev (2+m) := by
-      rw [h1, h2, show 2 + m = m + 2 by omega]; simp only [hev]; rw [dickPair_succ_succ]
-    have hi : (2 + (m:ℤ)).toNat = 2 + m := by omega
-    have hs' := RInv_step3 ns hpw ev (2+m) _ _ _ e hs
-    simp only [hi]
-    exact ⟨hs'.1, hs'.2, by rw [e]; congr 1; omega, h1⟩
-  · intro a ha
-    have := le_lastOrder ns hpw a ha
-    omega
-
-/-- the statement-by-statement translation of `dickson1_seq` (running index, conditional row writes, early returns,
-    loop) returns `ns.map` of the model's single-order value for EVERY non-empty strictly ascending `ns` -/
+/-- the statement-by-statement translation of `dickson1_seq` (running index, conditional row writes, early returns, loop) returns
+    `ns.map` of the model's single-order value for EVERY non-empty strictly ascending `ns` -/
 theorem gen_dickson1Seq (ns : List Nat) (hne : ns ≠ []) (hpw : ns.Pairwise (· < ·)) (al x : K) :
     Generated.C08.dickson1Seq ns al x = some (ns.map fun n => dickson1 n al x) := by
   first
-  | (show Model.C08.sweep _ _ = _; rw [C08L.sweep_eq_map _ ns hne hpw]; congr 1; apply List.map_congr_left; intro a _; simpa using dickRec_eval1 al x a)
+  | (show Model.C08.sweep _ _ = _; rw [C08L.sweep_eq_map _ ns hne hpw]; congr 1; apply List.map_congr_left; intro n _; simpa using dickRec_eval1 al x n)
   | (
-      have := gen_dicksonSeq_aux (2:K) ns hpw al x Generated.C08.dickson1Seq (by
-        unfold Generated.C08.dickson1Seq
-        simp only [ofInt_eq, Int.cast_one, Int.cast_zero, Int.cast_ofNat])
-      simpa [dickson1] using this)
-
-/-- the statement-by-statement translation of `dickson2_seq` (running index, conditional row writes, early returns,
-    loop) returns `ns.map` of the model's single-order value for EVERY non-empty strictly ascending `ns` -/
-theorem gen_dickson2Seq (ns : List Nat) (hne : ns ≠ []) (hpw : ns.Pairwise (· < ·)) (al x : K) :
-    Generated.C08.dickson2Seq ns al x = some (ns.map fun n => dickson2 n al x) := by
-  first
-  | (show Model.C08.sweep _ _ = _; rw [C08L.sweep_eq_map _ ns hne hpw]; congr 1; apply List.map_congr_left; intro a _; simpa using dickRec_eval2 al x a)
-  | (
-      have := gen_dicksonSeq_aux (1:K) ns hpw al x Generated.C08.dickson2Seq (by
-        unfold Generated.C08.dickson2Seq
-        simp only [ofInt_eq, Int.cast_one, Int.cast_zero, Int.cast_ofNat])
-      simpa [dickson2] using this)
-
-/-- the statement-by-statement translation of `jacobi_seq` (running index, conditional row writes, early returns,
-    loop) returns `ns.map` of the model's single-order value for EVERY non-empty strictly ascending `ns` -/
-theorem gen_jacobiSeq (ns : List Nat) (hne : ns ≠ []) (hpw : ns.Pairwise (· < ·)) (a b x : K) :
-    Generated.C08.jacobiSeq ns a b x = some (ns.map fun n => jacobi n a b x) := by
-  first
-  | (show Model.C08.sweep _ _ = _; rw [C08L.sweep_eq_map _ ns hne hpw]; simp [jacobiRec_eval])
-  | (
-      unfold Generated.C08.jacobiSeq
-      simp only [ofInt_eq, Int.cast_one, Int.cast_zero, Int.cast_ofNat]
-      set ev : Nat → K := fun n => jacobi n a b x with hev
-      have e1 : Generated.C07.abc (1:K) a b = abc 1 a b := by simpa using C07.gen_abc_nat 0 a b
-      have h := RInv_step ns hpw ev 0 _ _ (1:K) (by simp [hev, jacobi_zero]) (RInv_zero ns ev)
-      generalize hst : (ite (ns[0]? = some 0) _ _ : Rows K × Nat) = st at h ⊢
-      obtain ⟨out1, k1⟩ := st
+      unfold Generated.C08.dickson1Seq
+      simp only [ofInt_eq, ofFrac_eq, Int.cast_one, Int.cast_zero, Int.cast_ofNat, Nat.cast_ofNat]
+      set ev : Nat → K := fun n => dickson1 n al x with hev
+      have h := RInv_zero ns ev
+      generalize hst : (ite (ns[0]? = some 0) _ _ : Rows K × Nat × Nat) = st
+      have h : RInv ns ev (0+1) st.1 st.2.1 ∧ st.2.2 = st.2.1 := by rw [← hst]; exact RInv_step3 ns hpw ev 0 _ _ _ (by simp [hev, dickson1, dickPair]) h
+      obtain ⟨out0, j0, k0⟩ := st
       simp only [] at h ⊢
+      obtain ⟨h, rfl⟩ := h
       split
-      · exact RInv_done ns ev 1 out1 k1 h ‹_›
-      have P1 : a + 1 + (a + b + 2) * ((x - 1) / 2) = ev 1 := by simp [hev, jacobi_one, jacP1]
-      have h := RInv_step ns hpw ev 1 _ _ _ P1 h
-      generalize hst : (ite (ns[k1]? = some 1) _ _ : Rows K × Nat) = st at h ⊢
-      obtain ⟨out2, k2⟩ := st
+      · exact RInv_done ns ev (0+1) out0 k0 h ‹_›
+      generalize hst : (ite (ns[k0]? = some 1) _ _ : Rows K × Nat × Nat) = st
+      have h : RInv ns ev (1+1) st.1 st.2.1 ∧ st.2.2 = st.2.1 := by rw [← hst]; exact RInv_step3 ns hpw ev 1 _ _ _ (by simp [hev, dickson1, dickPair]) h
+      obtain ⟨out1, j1, k1⟩ := st
       simp only [] at h ⊢
+      obtain ⟨h, rfl⟩ := h
       split
-      · exact RInv_done ns ev 2 out2 k2 h ‹_›
-      have P2 : ((Generated.C07.abc (1:K) a b).1 * x + (Generated.C07.abc (1:K) a b).2.1) * (a + 1 + (a + b + 2) * ((x - 1) / 2))
-          - (Generated.C07.abc (1:K) a b).2.2 = ev 2 := by
-        simp only [hev]; rw [e1, jacobi_succ_succ, jacobi_one, jacobi_zero]; simp [jacStep, jacP1]
-      have h := RInv_step ns hpw ev 2 _ _ _ P2 h
-      generalize hst : (ite (ns[k2]? = some 2) _ _ : Rows K × Nat) = st at h ⊢
-      obtain ⟨out3, k3⟩ := st
-      simp only [] at h ⊢
-      split
-      · exact RInv_done ns ev 3 out3 k3 h ‹_›
-      refine RInv_finish ns ev (3 + ((lastOrder ns + 1) - 3).toNat) _ _ (forRange_induct'
-        (fun m (s : K × K × K × K × K × K × Nat × Rows K) => RInv ns ev (3 + m) s.2.2.2.2.2.2.2 s.2.2.2.2.2.2.1
-          ∧ s.2.1 = ev (m+1) ∧ s.2.2.2.2.2.1 = ev (m+2))
-        3 (lastOrder ns + 1) _ _ ?_ ?_).1 ?_
-      · exact ⟨h, P1, P2⟩
-      · rintro m s ⟨hs, h1, h2⟩
-        have hc : (((3 + (m:ℤ) : ℤ) : K) - 1) = ((m + 1 : ℕ) : K) + 1 := by push_cast; ring
-        have e : ((Generated.C07.abc (((3 + (m:ℤ) : ℤ) : K) - 1) a b).1 * x + (Generated.C07.abc (((3 + (m:ℤ) : ℤ) : K) - 1) a b).2.1)
-            * s.2.2.2.2.2.1 - (Generated.C07.abc (((3 + (m:ℤ) : ℤ) : K) - 1) a b).2.2 * s.2.1 = ev (3+m) := by
-          rw [hc, C07.gen_abc_nat, h1, h2, show 3 + m = (m+1) + 2 by omega]; simp only [hev]
-          rw [jacobi_succ_succ (m+1)]; simp [jacStep]
-        have hi : (3 + (m:ℤ)).toNat = 3 + m := by omega
-        have hs' := RInv_step ns hpw ev (3+m) _ _ _ e hs
+      · exact RInv_done ns ev (1+1) out1 k1 h ‹_›
+      refine RInv_finish ns ev (2 + ((lastOrder ns + 1) - 2).toNat) _ _ (forRange_induct'
+        (fun m s => RInv ns ev (2 + m) (Generated.C08.dickson1Seq_st_out s) (Generated.C08.dickson1Seq_st_j s) ∧ Generated.C08.dickson1Seq_st_min_i s = Generated.C08.dickson1Seq_st_j s ∧ Generated.C08.dickson1Seq_st_Pnm1 s = ev (m+1) ∧ Generated.C08.dickson1Seq_st_Pnm2 s = ev m)
+        2 (lastOrder ns + 1) _ _ ?_ ?_).1 ?_
+      · exact ⟨h, rfl, by simp [hev, dickson1, dickPair], by simp [hev, dickson1, dickPair]⟩
+      · rintro m s ⟨hs, hj, h1, h2⟩
+        dsimp only [Generated.C08.dickson1Seq_st_out, Generated.C08.dickson1Seq_st_min_i, Generated.C08.dickson1Seq_st_Pnm1, Generated.C08.dickson1Seq_st_Pnm2, Generated.C08.dickson1Seq_st_j] at hs hj h1 h2 ⊢
+        have hi : (2 + (m:ℤ)).toNat = 2 + m := by omega
         simp only [hi]
-        exact ⟨hs', h2, by rw [e]; congr 1; omega⟩
+        rw [hj] at *
+        refine ⟨(RInv_step3 ns hpw ev (2+m) _ _ _ (by rw [h1, h2, show 2 + m = m + 2 by omega]; simp only [hev, dickson1]; rw [dickPair_succ_succ]) hs).1, (RInv_step3 ns hpw ev (2+m) _ _ _ (by rw [h1, h2, show 2 + m = m + 2 by omega]; simp only [hev, dickson1]; rw [dickPair_succ_succ]) hs).2, ?_, ?_⟩
+        · rw [h1, h2]; simp only [hev, dickson1]; rw [dickPair_succ_succ]
+        · exact h1
       · intro a ha
         have := le_lastOrder ns hpw a ha
         omega)
+
+/-- the statement-by-statement translation of `dickson2_seq` (running index, conditional row writes, early returns, loop) returns
+    `ns.map` of the model's single-order value for EVERY non-empty strictly ascending `ns` -/
+theorem gen_dickson2Seq (ns : List Nat) (hne : ns ≠ []) (hpw : ns.Pairwise (· < ·)) (al x : K) :
+    Generated.C08.dickson2Seq ns al x = some (ns.map fun n => dickson2 n al x) := by
+  first
+  | (show Model.C08.sweep _ _ = _; rw [C08L.sweep_eq_map _ ns hne hpw]; congr 1; apply List.map_congr_left; intro n _; simpa using dickRec_eval2 al x n)
+  | (
+      unfold Generated.C08.dickson2Seq
+      simp only [ofInt_eq, ofFrac_eq, Int.cast_one, Int.cast_zero, Int.cast_ofNat, Nat.cast_ofNat]
+      set ev : Nat → K := fun n => dickson2 n al x with hev
+      have h := RInv_zero ns ev
+      generalize hst : (ite (ns[0]? = some 0) _ _ : Rows K × Nat × Nat) = st
+      have h : RInv ns ev (0+1) st.1 st.2.1 ∧ st.2.2 = st.2.1 := by rw [← hst]; exact RInv_step3 ns hpw ev 0 _ _ _ (by simp [hev, dickson2, dickPair]) h
+      obtain ⟨out0, j0, k0⟩ := st
+      simp only [] at h ⊢
+      obtain ⟨h, rfl⟩ := h
+      split
+      · exact RInv_done ns ev (0+1) out0 k0 h ‹_›
+      generalize hst : (ite (ns[k0]? = some 1) _ _ : Rows K × Nat × Nat) = st
+      have h : RInv ns ev (1+1) st.1 st.2.1 ∧ st.2.2 = st.2.1 := by rw [← hst]; exact RInv_step3 ns hpw ev 1 _ _ _ (by simp [hev, dickson2, dickPair]) h
+      obtain ⟨out1, j1, k1⟩ := st
+      simp only [] at h ⊢
+      obtain ⟨h, rfl⟩ := h
+      split
+      · exact RInv_done ns ev (1+1) out1 k1 h ‹_›
+      refine RInv_finish ns ev (2 + ((lastOrder ns + 1) - 2).toNat) _ _ (forRange_induct'
+        (fun m s => RInv ns ev (2 + m) (Generated.C08.dickson2Seq_st_out s) (Generated.C08.dickson2Seq_st_j s) ∧ Generated.C08.dickson2Seq_st_min_i s = Generated.C08.dickson2Seq_st_j s ∧ Generated.C08.dickson2Seq_st_Pnm1 s = ev (m+1) ∧ Generated.C08.dickson2Seq_st_Pnm2 s = ev m)
+        2 (lastOrder ns + 1) _ _ ?_ ?_).1 ?_
+      · exact ⟨h, rfl, by simp [hev, dickson2, dickPair], by simp [hev, dickson2, dickPair]⟩
+      · rintro m s ⟨hs, hj, h1, h2⟩
+        dsimp only [Generated.C08.dickson2Seq_st_out, Generated.C08.dickson2Seq_st_min_i, Generated.C08.dickson2Seq_st_Pnm1, Generated.C08.dickson2Seq_st_Pnm2, Generated.C08.dickson2Seq_st_j] at hs hj h1 h2 ⊢
+        have hi : (2 + (m:ℤ)).toNat = 2 + m := by omega
+        simp only [hi]
+        rw [hj] at *
+        refine ⟨(RInv_step3 ns hpw ev (2+m) _ _ _ (by rw [h1, h2, show 2 + m = m + 2 by omega]; simp only [hev, dickson2]; rw [dickPair_succ_succ]) hs).1, (RInv_step3 ns hpw ev (2+m) _ _ _ (by rw [h1, h2, show 2 + m = m + 2 by omega]; simp only [hev, dickson2]; rw [dickPair_succ_succ]) hs).2, ?_, ?_⟩
+        · rw [h1, h2]; simp only [hev, dickson2]; rw [dickPair_succ_succ]
+        · exact h1
+      · intro a ha
+        have := le_lastOrder ns hpw a ha
+        omega)
+
+/-- the statement-by-statement translation of `jacobi_seq` (running index, conditional row writes, early returns, loop) returns
+    `ns.map` of the model's single-order value for EVERY non-empty strictly ascending `ns` -/
+theorem gen_jacobiSeq (ns : List Nat) (hne : ns ≠ []) (hpw : ns.Pairwise (· < ·)) (a b x : K) :
+    Generated.C08.jacobiSeq ns a b x = some (ns.map fun n => jacobi n a b x) := by
+  first
+  | (show Model.C08.sweep _ _ = _; rw [C08L.sweep_eq_map _ ns hne hpw]; congr 1; apply List.map_congr_left; intro n _; simpa using jacobiRec_eval a b x n)
+  | (
+      unfold Generated.C08.jacobiSeq
+      simp only [ofInt_eq, ofFrac_eq, Int.cast_one, Int.cast_zero, Int.cast_ofNat, Nat.cast_ofNat]
+      set ev : Nat → K := fun n => jacobi n a b x with hev
+      have e1 : Generated.C07.abc (1:K) a b = abc 1 a b := by simpa using C07L.gen_abc_nat 0 a b
+      have P1 : a + 1 + (a + b + 2) * ((x - 1) / 2) = ev 1 := by simp [hev, jacobi_one, jacP1]
+      have P2 : ((Generated.C07.abc (1:K) a b).1 * x + (Generated.C07.abc (1:K) a b).2.1) * (a + 1 + (a + b + 2) * ((x - 1) / 2))
+          - (Generated.C07.abc (1:K) a b).2.2 = ev 2 := by
+        simp only [hev]; rw [e1, jacobi_succ_succ, jacobi_one, jacobi_zero]; simp [jacStep, jacP1]
+      have h := RInv_zero ns ev
+      generalize hst : (ite (ns[0]? = some 0) _ _ : Rows K × Nat) = st
+      have h : RInv ns ev (0+1) st.1 st.2 := by rw [← hst]; exact RInv_step ns hpw ev 0 _ _ _ (by simp [hev, jacobi_zero]) h
+      obtain ⟨out0, k0⟩ := st
+      simp only [] at h ⊢
+      split
+      · exact RInv_done ns ev (0+1) out0 k0 h ‹_›
+      generalize hst : (ite (ns[k0]? = some 1) _ _ : Rows K × Nat) = st
+      have h : RInv ns ev (1+1) st.1 st.2 := by rw [← hst]; exact RInv_step ns hpw ev 1 _ _ _ (by exact P1) h
+      obtain ⟨out1, k1⟩ := st
+      simp only [] at h ⊢
+      split
+      · exact RInv_done ns ev (1+1) out1 k1 h ‹_›
+      generalize hst : (ite (ns[k1]? = some 2) _ _ : Rows K × Nat) = st
+      have h : RInv ns ev (2+1) st.1 st.2 := by rw [← hst]; exact RInv_step ns hpw ev 2 _ _ _ (by exact P2) h
+      obtain ⟨out2, k2⟩ := st
+      simp only [] at h ⊢
+      split
+      · exact RInv_done ns ev (2+1) out2 k2 h ‹_›
+      refine RInv_finish ns ev (3 + ((lastOrder ns + 1) - 3).toNat) _ _ (forRange_induct'
+        (fun m s => RInv ns ev (3 + m) (Generated.C08.jacobiSeq_st_out s) (Generated.C08.jacobiSeq_st_min_i s) ∧ Generated.C08.jacobiSeq_st_Pnm1 s = ev (m+1) ∧ Generated.C08.jacobiSeq_st_Pn s = ev (m+2))
+        3 (lastOrder ns + 1) _ _ ?_ ?_).1 ?_
+      · exact ⟨h, by exact P1, by exact P2⟩
+      · rintro m s ⟨hs, h1, h2⟩
+        dsimp only [Generated.C08.jacobiSeq_st_out, Generated.C08.jacobiSeq_st_min_i, Generated.C08.jacobiSeq_st_Pnm1, Generated.C08.jacobiSeq_st_Pn] at hs h1 h2 ⊢
+        have hi : (3 + (m:ℤ)).toNat = 3 + m := by omega
+        simp only [hi]
+        have hc : (((3 + (m:ℤ) - 1 : ℤ)) : K) = ((m + 1 : ℕ) : K) + 1 := by push_cast; ring
+        refine ⟨RInv_step ns hpw ev (3+m) _ _ _ (by rw [hc, C07L.gen_abc_nat, h1, h2, show 3 + m = (m+1) + 2 by omega]; simp only [hev]; rw [jacobi_succ_succ (m+1)]; simp [jacStep]) hs, ?_, ?_⟩
+        · exact h2
+        · rw [hc, C07L.gen_abc_nat, h1, h2, show m + 1 + 2 = (m+1) + 2 from rfl]; simp only [hev]; rw [jacobi_succ_succ (m+1)]; simp [jacStep]
+      · intro a ha
+        have := le_lastOrder ns hpw a ha
+        omega)
+
 
 /-- **the code of `jacobi_seq`, `hermite_He_seq`, `hermite_H_seq`, `laguerre_seq`, `dickson1_seq`, `dickson2_seq`**: for every
     non-empty strictly ascending order list, row `i` of the translated `*_seq` body is the translated single-order
@@ -585,12 +610,34 @@ theorem seq_code_eq_map_scalar_code (ns : List Nat) (hne : ns ≠ []) (hpw : ns.
     ∧ Generated.C08.dickson1Seq ns a x = some (ns.map fun (n : ℕ) => Generated.C07.dickson1 (n:ℤ) a x)
     ∧ Generated.C08.dickson2Seq ns a x = some (ns.map fun (n : ℕ) => Generated.C07.dickson2 (n:ℤ) a x) := by
   refine ⟨?_, ?_, ?_, ?_, ?_, ?_⟩
-  · rw [gen_jacobiSeq ns hne hpw]; simp [C07.gen_jacobi]
-  · rw [gen_hermiteHeSeq ns hne hpw]; simp [C07.gen_hermiteHe]
-  · rw [gen_hermiteHSeq ns hne hpw]; simp [C07.gen_hermiteH]
-  · rw [gen_laguerreSeq ns hne hpw]; simp [C07.gen_laguerre]
-  · rw [gen_dickson1Seq ns hne hpw]; simp [C07.gen_dickson1]
-  · rw [gen_dickson2Seq ns hne hpw]; simp [C07.gen_dickson2]
+  · rw [gen_jacobiSeq ns hne hpw]; simp [C07L.gen_jacobi]
+  · rw [gen_hermiteHeSeq ns hne hpw]; simp [C07L.gen_hermiteHe]
+  · rw [gen_hermiteHSeq ns hne hpw]; simp [C07L.gen_hermiteH]
+  · rw [gen_laguerreSeq ns hne hpw]; simp [C07L.gen_laguerre]
+  · rw [gen_dickson1Seq ns hne hpw]; simp [C07L.gen_dickson1]
+  · rw [gen_dickson2Seq ns hne hpw]; simp [C07L.gen_dickson2]
+
+/-- `hermite_He_der_seq` / `hermite_H_der_seq`: rows are the translated single-order `hermite_He_der` / `hermite_H_der` -/
+theorem der_seq_code_eq_map_scalar_code (ns : List Nat) (hne : ns ≠ []) (hpw : ns.Pairwise (· < ·)) (x : K) :
+    Generated.C08.hermiteHeDerSeq ns x = some (ns.map fun (n : ℕ) => Generated.C08.hermiteHeDer (n:ℤ) x)
+    ∧ Generated.C08.hermiteHDerSeq ns x = some (ns.map fun (n : ℕ) => Generated.C08.hermiteHDer (n:ℤ) x) := by
+  have e1 : ∀ n : ℕ, Generated.C08.hermiteHeDer (n:ℤ) x = C08L.hermiteHeDer n x := by
+    intro n; cases n with
+    | zero => simp [Generated.C08.hermiteHeDer, C08L.hermiteHeDer]
+    | succ k =>
+      have h0 : ¬ (((k + 1 : ℕ) : ℤ) = 0) := by omega
+      have e : ((k + 1 : ℕ) : ℤ) - 1 = (k : ℤ) := by omega
+      simp only [Generated.C08.hermiteHeDer, if_neg h0, e, C07L.gen_hermiteHe, C08L.hermiteHeDer]; simp
+  have e2 : ∀ n : ℕ, Generated.C08.hermiteHDer (n:ℤ) x = C08L.hermiteHDer n x := by
+    intro n; cases n with
+    | zero => simp [Generated.C08.hermiteHDer, C08L.hermiteHDer]
+    | succ k =>
+      have h0 : ¬ (((k + 1 : ℕ) : ℤ) = 0) := by omega
+      have e : ((k + 1 : ℕ) : ℤ) - 1 = (k : ℤ) := by omega
+      simp only [Generated.C08.hermiteHDer, if_neg h0, e, C07L.gen_hermiteH, C08L.hermiteHDer]; simp
+  constructor
+  · rw [gen_hermiteHeDerSeq ns hne hpw]; simp [e1]
+  · rw [gen_hermiteHDerSeq ns hne hpw]; simp [e2]
 
 end translated_seq
 
